@@ -91,11 +91,17 @@ pub fn truncate(a: &HashMap<String, String>) -> i32 {
         }
         // magic variants: every proper prefix of the magic, single-byte changes, an older version
         let mut variants: Vec<Vec<u8>> = vec![];
+        // every single-byte substitution of the magic (21 positions x 255 values); the body stays intact
+        let head_len = (MAGIC.len() + 64).min(bytes.len());
+        let mut head_variants: Vec<(usize, u8)> = vec![];
         for k in 0..MAGIC.len() {
-            let mut v = bytes.clone();
-            v[k] ^= 0x01;
-            variants.push(v);
+            for b in 0..=255u8 {
+                if b != bytes[k] {
+                    head_variants.push((k, b));
+                }
+            }
         }
+        let _ = head_len;
         let mut old = bytes.clone();
         old[..MAGIC.len()].copy_from_slice(b"VibratoTokenizer 0.4\n");
         variants.push(old);
@@ -107,7 +113,19 @@ pub fn truncate(a: &HashMap<String, String>) -> i32 {
         for v in &variants {
             vc[read_outcome(v) as usize] += 1;
         }
-        writeln!(f, "{}", json!({"ev": "magic", "n": variants.len(), "n_err": vc[0], "n_ok": vc[1], "n_panic": vc[2]})).unwrap();
+        let mut scratch = bytes.clone();
+        let mut first_accepted: i64 = -1;
+        for (k, b) in &head_variants {
+            let old = scratch[*k];
+            scratch[*k] = *b;
+            let o = read_outcome(&scratch);
+            if o != 0 && first_accepted < 0 {
+                first_accepted = (*k as i64) * 256 + *b as i64;
+            }
+            vc[o as usize] += 1;
+            scratch[*k] = old;
+        }
+        writeln!(f, "{}", json!({"ev": "magic", "n": variants.len() + head_variants.len(), "n_err": vc[0], "n_ok": vc[1], "n_panic": vc[2], "first_accepted": first_accepted})).unwrap();
     }
     0
 }
